@@ -9,6 +9,8 @@ compared against plain positional access on the model.
 """
 from __future__ import annotations
 
+import math
+
 import numpy as np
 import thermosteam as tmo
 from hypothesis import strategies as st
@@ -25,10 +27,12 @@ RULE = ('Each case draws a universe (1-8 of 16 database chemicals in any order, 
         'database alias|user alias) | group | tuple/list of names | tuple/list mixing names and groups | ... | phase '
         '(swapped case when unambiguous) | (phase, key) | (..., key). "key": one read, one write (scalar, vector, '
         'per-phase, 2-d or sparse data), read-back, all other entries untouched. "history": up to 40 steps of read / '
-        'write / re-read / bulk lookup of 50-700 distinct tuple keys / new indexer (same phases, copy, other phases, '
+        'write / re-read / the same key on another stream / bulk lookup of 50-700 distinct tuple keys / new indexer (same phases, copy, other phases, '
         'twin universe) / cross-package copy_like|separate_out from a permuted sub-package / read through the CAS tuple '
         'of that copy / set_alias / define_group, all reads compared with the model, memoised reads repeated at the end '
         '(bitwise equal when the stream was not written in between), all names resolved again, lookup caches audited. '
+        '"shared": 2-4 streams over one universe or its twin (same phases, same number of other phases, any phases, '
+        'single-phase) and 1-8 keys, each applied to every stream on which it is a valid key. '
         'Oracle: own dense array + own name and group tables. Non-trivial: a history in which a bounded cache '
         'overflowed before a checked read or that wrote through a group/nested key; a key case whose key is not a '
         'bare ID. Distinct by (check, stream kind, phases, view, key shape, data shape, cache-overflow flags, op names).')
@@ -48,7 +52,8 @@ REQUIRED_CELLS = {'quick': ['key:ix=S', 'key:ix=M', 'key:pk=sum', 'key:pk=phase'
                             'key:ck=name', 'key:ck=group', 'key:ck=seq', 'key:ck=nested', 'key:ck=all',
                             'key:fl=mass', 'key:swapcase', 'hist:ev100', 'hist:crossed500', 'hist:op=xcopy',
                             'hist:op=casread', 'hist:new=same', 'hist:new=copy', 'hist:new=phases', 'hist:new=twin',
-                            'hist:op=set_alias', 'hist:op=define_group', 'hist:write-group'],
+                            'hist:op=set_alias', 'hist:op=define_group', 'hist:write-group', 'hist:mirror=twin',
+                            'hist:mirror=phases', 'shared:to=twin', 'shared:to=same', 'shared:to=other'],
                   'thorough': []}
 WALL = {'quick': 540, 'thorough': 3300}
 
@@ -346,7 +351,7 @@ def canon_key(key):
 def ck_read(U, row, ck, fl):
     t = ck[0]
     if t == 'name': return float(row[ck[1]])
-    if t == 'group': return float(sum(row[i] for i in U.groups[ck[1]][0]))
+    if t == 'group': return math.fsum(row[i] for i in U.groups[ck[1]][0])
     if t == 'all': return np.array(row, float)
     return np.array([ck_read(U, row, e, fl) for e in ck[2]], float)
 
@@ -355,9 +360,9 @@ def ck_read_sum(U, F, ck):
     """Chemical key without a phase on multi-phase data: sums over the rows."""
     t = ck[0]
     P = F.shape[0]
-    if t == 'name': return float(sum(F[p][ck[1]] for p in range(P)))
-    if t == 'group': return float(sum(F[p][i] for i in U.groups[ck[1]][0] for p in range(P)))
-    if t == 'all': return F.sum(0)
+    if t == 'name': return math.fsum(F[p][ck[1]] for p in range(P))
+    if t == 'group': return math.fsum(F[p][i] for i in U.groups[ck[1]][0] for p in range(P))
+    if t == 'all': return np.array([math.fsum(F[:, i]) for i in range(F.shape[1])], float)
     return np.array([ck_read_sum(U, F, e) for e in ck[2]], float)
 
 
@@ -424,6 +429,9 @@ class Str:
     def view(self, fl):
         return self.model * self.U.MW if fl == 'mass' else self.model.copy()
 
+    def scale(self, fl):
+        return float(np.max(np.abs(self.view(fl)))) if self.model.size else 1.0
+
     def set_view(self, fl, r, pos, value):
         self.model[r, pos] = value / self.U.MW[pos] if fl == 'mass' else value
 
@@ -446,7 +454,8 @@ def draw_stream(ch, label, U, kind=None, phases=None):
     return Str(U, kind, phases, flows)
 
 
-def compare(ctx, got, want, sig, what):
+def compare(ctx, got, want, sig, what, scale=1.0):
+    """|got - want| <= 1e-12 * max(1, largest model entry, largest expected entry) (DESIGN.md section 4)."""
     try:
         g = to_dense(got)
     except Exception as e:
@@ -456,7 +465,7 @@ def compare(ctx, got, want, sig, what):
         ctx.fail(sig + '|shape', f'{what}: shape {g.shape} != {w.shape}; got {g.tolist()} want {w.tolist()}')
     if g.size:
         err = float(np.max(np.abs(g - w)))
-        scale = max(1.0, float(np.max(np.abs(w))))
+        scale = max(1.0, scale, float(np.max(np.abs(w))))
         ctx.metric_max('rel_err', err / scale)
         if not err <= RTOL * scale:
             ctx.fail(sig + '|mismatch', f'{what}: got {g.tolist()} want {w.tolist()}')
@@ -464,10 +473,11 @@ def compare(ctx, got, want, sig, what):
 
 
 def check_data(ctx, S, fl, sig, what):
-    compare(ctx, S.stream.imol.data, S.model if S.kind == 'M' else S.model[0], sig, what + ' (molar data)')
+    compare(ctx, S.stream.imol.data, S.model if S.kind == 'M' else S.model[0], sig, what + ' (molar data)',
+            S.scale('mol'))
     if fl == 'mass':
         v = S.view('mass')
-        compare(ctx, S.stream.imass.data, v if S.kind == 'M' else v[0], sig, what + ' (mass data)')
+        compare(ctx, S.stream.imass.data, v if S.kind == 'M' else v[0], sig, what + ' (mass data)', S.scale('mass'))
 
 
 def key_region(S, fl, mk, data='-', ev=''):
@@ -487,7 +497,7 @@ def do_read(ctx, S, fl, mk, ev='', site='read'):
     key = mk_py(mk)
     got = ctx.call(site, S.ix(fl).__getitem__, key, region=region)
     want = model_read(S.U, S.view(fl), mk)
-    g = compare(ctx, got, want, f'{site}|{region}', f'read {key!r}')
+    g = compare(ctx, got, want, f'{site}|{region}', f'read {key!r}', S.scale(fl))
     return g
 
 
@@ -718,6 +728,7 @@ def op_bulk(ch, ctx, W, label, big):
     else:
         form = 'single'
     F = S.view(fl)
+    scale = S.scale(fl)
     ix = S.ix(fl)
     for j in range(n):
         m = start + j
@@ -733,7 +744,7 @@ def op_bulk(ch, ctx, W, label, big):
         key = mk_py(mk)
         got = ctx.call('bulk', ix.__getitem__, key, region=region)
         want = model_read(U, F, mk)
-        g = compare(ctx, got, want, f'bulk|{region}', f'read {key!r}')
+        g = compare(ctx, got, want, f'bulk|{region}', f'read {key!r}', scale)
         if j % 97 == 0:
             remember(W, si, fl, mk, g)
     check_data(ctx, S, fl, f'bulk|ix={S.kind},form={form}', 'data changed by bulk reads')
@@ -852,9 +863,11 @@ def audit(ctx, W):
             if not same_index(val, want):
                 ctx.fail(f'audit|cache=chem100,entry={entry_kind(key, U)}|mismatch',
                          f'{key!r} -> {val!r}, a fresh lookup gives {want!r}')
-    for (phases, chems), cache in list(tix.MaterialIndexer._index_caches.items()):
+    for ckey, cache in list(tix.MaterialIndexer._index_caches.items()):
+        if not (isinstance(ckey, tuple) and len(ckey) == 2): continue
+        phases, chems = ckey
         U = next((u for u in W.unis if u.chems is chems), None)
-        if U is None: continue
+        if U is None or not (isinstance(phases, tuple) and all(isinstance(p, str) for p in phases)): continue
         if len(cache) > 500:
             ctx.fail('audit|cache=material500|oversize', f'{len(cache)} entries')
         prow = {p: i for i, p in enumerate(phases)}
@@ -929,7 +942,7 @@ def prop_history(ch, ctx):
     big = ch.bool('big_bulk')
     nsteps = ch.int('nsteps', 1, 40)
     ops = ['read'] * 6 + ['write'] * 5 + ['bulk'] * 3 + ['reread'] * 2 + ['new'] * 2 + ['xcopy'] * 2 + \
-          ['casread'] * 2 + ['set_alias', 'define_group']
+          ['casread'] * 2 + ['mirror'] * 3 + ['set_alias', 'define_group']
     flags = set()
     summary = []
     for step in range(nsteps):
@@ -968,6 +981,12 @@ def prop_history(ch, ctx):
             r = op_casread(ch, ctx, W, label)
             if r is not None: summary.append(['casread'] + r)
             else: continue
+        elif op == 'mirror':
+            r = op_mirror(ch, ctx, W, label)
+            if r is None: continue
+            summary.append(['mirror'] + r)
+            if not r[2]: ctx.cell('hist:mirror=twin')
+            elif not r[3]: ctx.cell('hist:mirror=phases')
         elif op == 'set_alias':
             Ux = W.unis[ch.int(f'{label}.uni', 0, len(W.unis) - 1)]
             add_alias(ch, ctx, Ux, label)
@@ -993,6 +1012,47 @@ def prop_history(ch, ctx):
         ctx.nontriv(['history', summary])
 
 
+def translate(mk, T):
+    """The same Python key addressed to another stream; None when it is not a valid key there."""
+    pform, p, row, ck = mk
+    U = T.U
+
+    def tr(c):
+        if c is None: return None
+        if c[0] == 'name': return ('name', U.names[c[2]], c[2]) if c[2] in U.names else False
+        if c[0] == 'group': return c if c[1] in U.groups else False
+        if c[0] == 'all': return c
+        elems = [tr(e) for e in c[2]]
+        return False if any(e is False for e in elems) else ('seq', c[1], elems)
+    ck2 = tr(ck)
+    if ck2 is False: return None
+    if T.kind == 'S':
+        return ('single', None, None, ck2) if pform in ('single', 'sum') else None
+    if pform in ('single', 'sum'): return ('sum', None, None, ck2)
+    if pform == 'allp': return ('allp', None, None, ck2)
+    if p in T.phases: r = T.phases.index(p)
+    elif p.swapcase() in T.phases: r = T.phases.index(p.swapcase())
+    else: return None
+    return (pform, p, r, ck2)
+
+
+def op_mirror(ch, ctx, W, label):
+    """Repeat an earlier key on another stream (other phases, other universe, other kind)."""
+    if not W.memo or len(W.streams) < 2: return None
+    k = ch.int(f'{label}.memo', 0, len(W.memo) - 1)
+    si, fl, mk, first, version = W.memo[k]
+    cands = [i for i, T in enumerate(W.streams) if i != si and translate(mk, T) is not None]
+    if not cands: return None
+    ti = ch.choice(f'{label}.to', cands)
+    T = W.streams[ti]
+    mk2 = translate(mk, T)
+    W.note(T, mk2, ctx)
+    g = do_read(ctx, T, fl, mk2, ev=W.evtag(T, mk2), site='mirror')
+    remember(W, ti, fl, mk2, g)
+    S = W.streams[si]
+    return [S.kind, T.kind, S.U is T.U, S.phases == T.phases]
+
+
 def reread(ctx, W, k, when):
     si, fl, mk, first, version = W.memo[k]
     S = W.streams[si]
@@ -1003,8 +1063,66 @@ def reread(ctx, W, k, when):
                  f'{mk_py(mk)!r}: first answer {first.tolist()}, now {g.tolist()} with unchanged data')
 
 
+# ---------------------------------------------------------------------------
+# check 4: the same keys on several indexers that may share a lookup cache
+# ---------------------------------------------------------------------------
+def prop_shared(ch, ctx):
+    W = World()
+    U = build_universe(ch, ctx, 'u')
+    W.unis.append(U)
+    if ch.bool('twin'):
+        W.unis.append(build_universe(ch, ctx, 'v', members=U.members, style=U.style))
+    ns = ch.int('nstreams', 2, 4)
+    for i in range(ns):
+        Ux = W.unis[ch.int(f's{i}.uni', 0, len(W.unis) - 1)]
+        if i == 0:
+            S = draw_stream(ch, f's{i}', Ux)
+        else:
+            S0 = W.streams[0]
+            how = ch.choice(f's{i}.how', ['same', 'same_size', 'free', 'single'])
+            if how == 'same':
+                S = draw_stream(ch, f's{i}', Ux, kind=S0.kind, phases=list(S0.phases))
+            elif how == 'same_size':
+                k = len(S0.phases)
+                S = draw_stream(ch, f's{i}', Ux, kind='M', phases=ch.subset(f's{i}.phases', ALL_PHASES, k, k))
+            elif how == 'free':
+                S = draw_stream(ch, f's{i}', Ux, kind='M')
+            else:
+                S = draw_stream(ch, f's{i}', Ux, kind='S')
+        W.streams.append(S)
+    nk = ch.int('nkeys', 1, 8)
+    shape = []
+    for j in range(nk):
+        si = ch.int(f'k{j}.stream', 0, ns - 1)
+        S = W.streams[si]
+        fl = ch.choice(f'k{j}.view', ['mol', 'mol', 'mass'])
+        write = ch.bool(f'k{j}.write')
+        mk = draw_single_or_mkey(ch, f'k{j}', S, write, allow_pall=False,
+                                 pforms=['sum', 'phase', 'pk', 'pk', 'allp'] if not write else ['phase', 'pk', 'pk', 'allp'])
+        if write:
+            if mk[0] == 'allp' and ck_kind(mk[3]) == 'nested': write = False
+            else: do_write(ch, ctx, f'k{j}', S, fl, mk)
+        order = list(range(si, ns)) + list(range(si))
+        hits = 0
+        for ti in order:
+            T = W.streams[ti]
+            mk2 = mk if ti == si else translate(mk, T)
+            if mk2 is None: continue
+            hits += 1
+            tag = 'src' if ti == si else ('twin' if T.U is not S.U else 'same' if T.phases == S.phases and T.kind == S.kind else 'other')
+            do_read(ctx, T, fl, mk2, ev=f',to={tag}', site='shared')
+            if tag != 'src': ctx.cell(f'shared:to={tag}')
+        shape.append([S.kind, fl, mk[0], ck_shape(mk[3]), write, hits])
+    for S in W.streams:
+        check_data(ctx, S, 'mass', 'final|data', 'final data')
+    audit(ctx, W)
+    if any(x[5] > 1 for x in shape):
+        ctx.nontriv(['shared', [[T.kind, list(T.phases), T.U is U] for T in W.streams], shape])
+
+
 PROPS = {
-    'key': (prop_key, 20000, 400000),
-    'names': (prop_names, 3000, 60000),
-    'history': (prop_history, 5000, 100000),
+    'key': (prop_key, 16000, 300000),
+    'names': (prop_names, 2000, 40000),
+    'history': (prop_history, 4000, 80000),
+    'shared': (prop_shared, 3000, 60000),
 }
